@@ -16,6 +16,10 @@ def run(chk):
         ex = explore(kind)
         handler_preamble(chk, ex, FUNCS[kind])
         hobl.c11_lifecycle(chk, ex, DOMAIN[kind])
+        if kind in ("step", "wfc"):
+            # the same obligations with a strategy whose Duration carries a float (Duration(seconds=0.5): annotated int, not enforced): the records
+            # written must not depend on the delay being an int (e.g. no int-only formatting between the RETRY record and the suspension)
+            hobl.c11_lifecycle(chk, explore(kind, float_delay=True), DOMAIN[kind])
     from . import wrapper_contracts, batcher
     wrapper_contracts.wrapper_obligations(chk, "C11", want=("C11",))
     batcher.check_collect(chk, "C11")      # updates reach the API in hand-over order (a child's START after its parent's START)
